@@ -41,6 +41,11 @@ Theorem C06_eof_any_stream chunks f' outs :
   run_events run_cfg_gen face_init (map Feed chunks ++ [Eof]) = (f', outs) ->
   concat outs = fst (packets_of (concat chunks)) /\ f' = Face false CFinished [] true true.
 Proof. exact (eof_any_stream run_cfg_gen chunks f' outs eq_refl). Qed.
+(* ... as does a connection reset while the reader waits *)
+Theorem C06_reset_any_stream chunks f' outs :
+  run_events run_cfg_gen face_init (map Feed chunks ++ [Reset]) = (f', outs) ->
+  concat outs = fst (packets_of (concat chunks)) /\ f_running f' = false /\ f_co f' = CFinished /\ f_closed f' = true.
+Proof. exact (reset_any_stream run_cfg_gen chunks f' outs eq_refl). Qed.
 Print Assumptions C06_eof_any_stream.
 
 (* whatever the byte stream and its chunking, every (typ, buf) handed to the callback is exactly one TLV element
@@ -112,6 +117,16 @@ Section Handlers.
   Proof.
     exact (receive_total state on_interest on_data on_nack on_interest_total on_data_total on_nack_total
              (cfg_v1 nd) (cfg_v1_ok nd) typ data s).
+  Qed.
+
+  (* end to end: whatever bytes a stream transport receives, in whatever pieces, every per-packet task it
+     spawns returns normally (both front-ends; v2 shown) *)
+  Theorem C06_stream_end_to_end nd chunks f' outs s :
+    run_events run_cfg_gen face_init (map Feed chunks) = (f', outs) ->
+    exists s', receive_all state on_interest on_data on_nack (cfg_v2 nd) (concat outs) s = Ok s'.
+  Proof.
+    exact (fun _ => receive_all_total state on_interest on_data on_nack on_interest_total on_data_total on_nack_total
+                      (cfg_v2 nd) (cfg_v2_ok nd) (concat outs) s).
   Qed.
 
   (* a dropped packet leaves the pending-Interest and handler tables untouched (no hypothesis on the handlers) *)
